@@ -451,8 +451,11 @@ class FPEmitter(object):
     return "\n".join(self.decls + self.lines)
 
 
-def build_smt(builder, asserts, get_values=None, logic="QF_BVFP", extra_decls=(), side=True):
-  """asserts: list of (B Node | str | L).  Stub side conditions are added."""
+def build_smt(builder, asserts, get_values=None, logic="QF_BVFP", extra_decls=(), side=True, cut=()):
+  """asserts: list of (B Node | str | L).  Stub side conditions are added.
+  cut: stub result nodes that are treated as free cut points - the side conditions that define them are NOT emitted
+  (assume-guarantee decomposition: the caller asserts an invariant about them instead)."""
+  cut_ids = set(n.nid for n in cut)
   em = FPEmitter(builder)
   strs = []
   for a in asserts:
@@ -469,6 +472,9 @@ def build_smt(builder, asserts, get_values=None, logic="QF_BVFP", extra_decls=()
         if k in used:
           continue
         owners = [n for n in sc.flat_nodes() if n.nid in res_ids]
+        if any(o.nid in cut_ids for o in owners):
+          used.add(k)
+          continue
         if owners and all(o.nid in em.done for o in owners):
           used.add(k)
           strs.append(sc.resolve(em))
